@@ -341,7 +341,7 @@ func runC06(c *mon.Ctx) {
 		var m *gen.Model
 		var s *gen.Stream
 		for {
-			m = gen.RandomModel(r, gen.ModelOpts{MaxPES: 2, MaxPMT: 1, MaxSI: 1, MaxUnits: 4, Salt: true, MaxPESLen: 700})
+			m = gen.RandomModel(r, gen.ModelOpts{MaxPES: 2, MaxPMT: 1, MaxSI: 1, MaxUnits: 4, Salt: true, MaxPESLen: 700, RichAF: true})
 			if len(m.PIDs) < 2 || len(m.PIDs) > 4 {
 				continue
 			}
